@@ -147,6 +147,7 @@ func TestVerifBoundedC42FilterModel(t *testing.T) {
 				}
 				out := ApplyFiltersToIter(iter.FromSlice(in), fa, fp)
 				var got []string
+				var collected []*types.PeerRecord
 				for out.Next() {
 					v := out.Val()
 					if v.Err != nil {
@@ -154,11 +155,28 @@ func TestVerifBoundedC42FilterModel(t *testing.T) {
 						continue
 					}
 					pr := v.Val.(*types.PeerRecord)
+					collected = append(collected, pr)
 					var as []string
 					for _, a := range pr.Addrs {
 						as = append(as, a.String())
 					}
 					got = append(got, fmt.Sprintf("%v|%v", pr.Protocols, as))
+				}
+				// a consumer that collects the records (a JSON response) reads them after the
+				// iterator is exhausted: each must still hold its own filtered addresses
+				var late []string
+				for _, pr := range collected {
+					var as []string
+					for _, a := range pr.Addrs {
+						as = append(as, a.String())
+					}
+					late = append(late, fmt.Sprintf("%v|%v", pr.Protocols, as))
+				}
+				if len(collected) == len(got) && fmt.Sprint(late) != fmt.Sprint(got) {
+					fails++
+					if fails <= 10 {
+						fmt.Printf("VERIF-FAIL C42 filter-protocols=%v filter-addrs=%v records=%v: records changed after they were handed out:\n  when produced  %v\n  once collected %v\n", fp, fa, l, got, late)
+					}
 				}
 				if fmt.Sprint(got) != fmt.Sprint(want) {
 					fails++
